@@ -67,3 +67,53 @@ def zstd_files(rng, n, wd, variant="plain"):
             except OSError:
                 pass
     return out
+
+
+def raw_frame(data):
+    """a zstd frame holding `data` in raw (uncompressed) blocks: no entropy coding, so it can be built without libzstd
+    and decodes with or without a dictionary"""
+    n = len(data)
+    if n < 256:
+        hdr = bytes([0x20, n])                      # single segment, 1-byte content size
+    elif n < 65536 + 256:
+        hdr = bytes([0x60]) + (n - 256).to_bytes(2, "little")
+    else:
+        hdr = bytes([0xa0]) + n.to_bytes(4, "little")
+    out = b"\x28\xb5\x2f\xfd" + hdr
+    if n == 0:
+        return out + (1).to_bytes(3, "little")     # one empty raw last block
+    for o in range(0, n, 100000):
+        blk = data[o:o + 100000]
+        last = 1 if o + 100000 >= n else 0
+        out += ((len(blk) << 3) | last).to_bytes(3, "little") + blk
+    return out
+
+
+def zstd_crafted_files(rng):
+    """sealed zstd-type files built by hand from raw-block frames; the dictionary chunk of some of them starts with the
+    zstd dictionary magic followed by unusable entropy tables (ZSTD_createDDict fails: the error path of the
+    dictionary import after the buffer has been handed to the compression context)"""
+    out = []
+    for dict_kind in ("badmagic", "rawcontent", "none", "magic-only"):
+        chunks = [rng.rbytes(rng.choice([20, 300, 1000])) for _ in range(3)]
+        if dict_kind == "badmagic":
+            d = b"\x37\xa4\x30\xec" + rng.rbytes(4) + bytes([0xff]) * 40 + rng.rbytes(60)
+        elif dict_kind == "magic-only":
+            d = b"\x37\xa4\x30\xec" + rng.rbytes(4)
+        elif dict_kind == "rawcontent":
+            d = rng.rbytes(120)
+        else:
+            d = b""
+        cht = rng.choice([1, 3])
+        entries, body = [], b""
+        for k, c in enumerate([d] + chunks):
+            if k == 0 and not c:
+                entries.append((bytes(zckfmt.DSIZE[cht]), None, 0, 0))
+                continue
+            st = raw_frame(c)
+            entries.append((zckfmt.H(cht, st), None, len(st), len(c)))
+            body += st
+        h = zckfmt.Hdr(ht=1, cht=cht, flags=0, comp=2, chunks=entries)
+        h.ddigest = zckfmt.H(1, body)
+        out.append((h.build() + body, b"".join(chunks), h))
+    return out
